@@ -1975,7 +1975,26 @@ class _GroupElem(ABC):
 
         # Retrieve the elements associated with these nodes
         all_elements = self.Get_Elements_Nodes(closest_nodes, exclusively=False)
-        unique_elements = np.unique(all_elements)
+
+        # The closest node of a point is not always a node of the element that holds the point
+        # (middle of a long edge or of a diagonal, stretched elements). An element lies within the
+        # ball centred at the centre of its nodes that reaches its farthest node: every element
+        # whose ball holds a point is a candidate for that point as well.
+        coordinates_n = np.asarray(coordinates_n, dtype=float)
+        coord_e = self.coord[self._global_to_local_nodes[self.connect]]
+        center_e = coord_e.mean(1)
+        radius_e = 1.01 * np.linalg.norm(coord_e - center_e[:, np.newaxis], axis=2).max(1)
+        tree = spatial.KDTree(center_e)
+        list_elements = [np.asarray(all_elements, dtype=int).ravel()]
+        for point, elems in zip(
+            coordinates_n, tree.query_ball_point(coordinates_n, radius_e.max())
+        ):
+            elems = np.asarray(elems, dtype=int)
+            if elems.size > 0:
+                dist = np.linalg.norm(center_e[elems] - point, axis=1)
+                list_elements.append(elems[dist <= radius_e[elems]])
+
+        unique_elements = np.unique(np.concatenate(list_elements))
 
         return unique_elements
 
